@@ -20,6 +20,7 @@ PACKS_DIR = os.path.join(vf.SRC, "geckolib", "driver", "packs")
 TYPES = {"Byte": "TByte", "Word": "TWord", "Time": "TTime", "Bool": "TBool", "Enum": "TEnum"}
 
 _loaded = None
+LABEL_IDS = {}
 
 
 class _S:
@@ -129,6 +130,14 @@ def _oz(x):
     return "None" if x is None else "(Some %d)" % x
 
 
+def decl_coq(it, tag="t"):
+    """Coq `decl` literal for a regenerated item (labels by interned id, see Gen/Labels.v)."""
+    return "(mkDecl %s %s %d %s %s %s %s %s %s)" % (
+        vf.cstr(tag), TYPES[it["type"]], it["pos"], _oz(it["bitpos"]),
+        "None" if it["items"] is None else "(Some lbl_%d)" % LABEL_IDS[tuple(it["items"])],
+        _oz(it["size"]), _oz(it["maxitems"]), vf.cbool(it["rw"] is not None), vf.cbool(it["temp"]))
+
+
 def emit(mods, outdir, label_path, label_mod, modpath, prefix, obligation):
     """Write label file + one Coq file per module; returns the module identifiers."""
     labels = {}
@@ -136,6 +145,9 @@ def emit(mods, outdir, label_path, label_mod, modpath, prefix, obligation):
         for it in m["items"]:
             if it["items"] is not None:
                 labels.setdefault(tuple(it["items"]), len(labels))
+    if prefix == "T_":
+        LABEL_IDS.clear()
+        LABEL_IDS.update(labels)
     txt = "(* GENERATED from /repo by tools/gen_tables.py - do not edit *)\nFrom Coq Require Import List String.\nImport ListNotations.\nOpen Scope string_scope.\n"
     for ls, i in sorted(labels.items(), key=lambda kv: kv[1]):
         txt += "Definition lbl_%d : list string := [%s].\n" % (i, "; ".join(vf.cstr(s) for s in ls))
